@@ -131,15 +131,11 @@ class BirthDeath(Distribution):
     def log_q(self, A, B, t, t_i):
         """Probability density of lineage alive between time t and t_i gives
         rise to observed clade."""
-        e = torch.exp(-A * (t - t_i))
-        return torch.log(
-            4.0
-            * e
-            / torch.pow(
-                e * (1.0 + B) + (1.0 - B),
-                2,
-            )
-        )
+        # t <= t_i: a >= 0 and exp(-a) cannot overflow
+        # log(4 e^a / (e^a (1+B) + (1-B))^2) = log(4 / ((1+B) + (1-B) e^-a)^2) - a
+        a = A * (t_i - t)
+        e = torch.exp(-a)
+        return torch.log(4.0 / torch.pow((1.0 + B) + (1.0 - B) * e, 2)) - a
 
     def log_p(self, t):
         """Probability density of lineage alive between time t and t_i has no
@@ -149,13 +145,15 @@ class BirthDeath(Distribution):
             + 4.0 * self.lambda_ * self.psi
         )
         B = ((1.0 - 2.0 * (1.0 - self.rho)) * self.lambda_ + self.mu + self.psi) / A
-        term = torch.exp(A * t) * (1.0 + B)
-        one_minus_Bi = 1.0 - B
+        # numerator and denominator divided by exp(A t), which overflows for fast
+        # rates over a long origin
+        one_plus_B = 1.0 + B
+        term = torch.exp(-A * t) * (1.0 - B)
         p = (
             self.lambda_
             + self.mu
             + self.psi
-            - A * (term - one_minus_Bi) / (term + one_minus_Bi)
+            - A * (one_plus_B - term) / (one_plus_B + term)
         ) / (2.0 * self.lambda_)
         return p, A, B
 
@@ -166,10 +164,12 @@ class BirthDeath(Distribution):
         p, A, B = self.log_p(self.origin)
 
         # first term
+        # log(4 e / (e (1-B) + (1+B))^2) with e = exp(-A origin), which underflows
+        # for fast rates over a long origin
         e = torch.exp(-A * self.origin)
-        q0 = 4.0 * e / torch.pow(e * (1.0 - B) + (1.0 + B), 2)
-
-        log_p = torch.log(q0)
+        log_p = (
+            torch.log(4.0 / torch.pow(e * (1.0 - B) + (1.0 + B), 2)) - A * self.origin
+        )
         # condition on sampling at least one individual
         if self.survival:
             log_p -= torch.log(1.0 - p[..., 0])
